@@ -260,6 +260,18 @@ func drawHistory(t *rapid.T) HistCase {
 	c.Steps = drawSteps(t, c.Profile, n, c.Net.IntervalS)
 	c.Blocks = rapid.IntRange(0, 2).Draw(t, "blocks") == 0
 	c.Seed = rapid.Uint64().Draw(t, "seed")
+	if rapid.IntRange(0, 7).Draw(t, "subsecond") == 0 {
+		// sub-second timestamps, strictly increasing: bursts of blocks a few hundred milliseconds apart and slower stretches
+		c.Profile = "subsecond-increasing"
+		fast := rapid.Bool().Draw(t, "subFast")
+		for range c.Steps {
+			hi := 3000
+			if fast {
+				hi = 900
+			}
+			c.SubMs = append(c.SubMs, int32(rapid.IntRange(1, hi).Draw(t, "subMs")))
+		}
+	}
 	return c
 }
 
